@@ -132,7 +132,10 @@ fn x_indexed_needs_palette() {
         // an absent index in one pixel
         let pal = s.palette.clone().unwrap();
         let absent: Vec<u8> = (0..=255u8).filter(|i| !pal.iter().any(|e| e.idx == *i as u32)).collect();
-        let bad = *r.pick(&absent);
+        // two kinds of absent index: one BELOW the number of colours (exists for sparse palettes) and any other
+        let below: Vec<u8> = absent.iter().copied().filter(|i| (*i as usize) < pal.len()).collect();
+        let bads: Vec<u8> = if below.is_empty() { vec![*r.pick(&absent)] } else { vec![*r.pick(&below), *r.pick(&absent)] };
+        for bad in bads {
         let mut targets = Vec::new();
         for (fi, f) in s.frames.iter().enumerate() {
             for (ci, c) in f.cels.iter().enumerate() {
@@ -161,6 +164,7 @@ fn x_indexed_needs_palette() {
             if load(&b).is_ok() {
                 st.fail(format!("tileset pixel index {} is absent from the palette but the file loads", bad), Some(&b));
             }
+        }
         }
         s.sprite_ud = None;
     }
